@@ -34,6 +34,16 @@ pub fn main() {
         "C11" => c11(),
         "C15" => c15(),
         "C09" => c09(),
+        "C07" => twins("C07"),
+        "C08" => twins("C08"),
+        "C13" => twins("C13"),
+        "TWINROWS" => {
+            // helper of twins("C13"): print the rows of every twin world under the hash seed of this process
+            for (label, rows) in twin_rows("unspentcsvdump").into_iter().chain(twin_rows("balances")) {
+                println!("{}\t{}", label, rows.into_iter().collect::<Vec<_>>().join("|"));
+            }
+            return;
+        }
         "MIRI" => {
             // supplementary free-running pass under a race detector (cargo +nightly miri run): decode blocks through the REAL
             // rayon and compare with the model. Sampling by nature; never decides a property on its own.
@@ -197,6 +207,9 @@ fn scripts(prop: &str) -> Report {
     }
     shards_fork.extend(token_sequences(tok_len));
     if prop == "C14" {
+        let payloads = Shard { name: "opreturn-payload-grammar".into(), scripts: opreturn_payload_scripts().into_iter().map(|(_, s)| s).collect() };
+        shards_btc.push(Shard { name: payloads.name.clone(), scripts: payloads.scripts.clone() });
+        shards_fork.push(payloads);
         shards_btc.push(extremes());
         shards_fork.push(extremes());
         shards_btc.extend(fork_push_family(false));
@@ -416,8 +429,11 @@ fn c11() -> Report {
     }
     keys.push(Some(vec![0u8; 1]));
     keys.push(Some(vec![0u8; 8]));
+    keys.push(Some(vec![0x5a, 0x31, 0x13, 0x00, 0x88, 0x9e, 0x21, 0xf4]));
+    keys.push(Some(vec![0, 0, 0, 0, 0, 0, 0, 1]));
+    keys.push(Some(vec![0xff; 8]));
     let caps = [1usize, 3, 8, 16, 64];
-    rep.rule = format!("XorReader<seek_bufread::BufReader<Cursor>> built exactly as BlkFile::open builds it, over a 40-byte file: ALL operation sequences up to depth {} over an alphabet of {} operations (Seek(Start p), Read(n), ReadExact(n) - the operations BlkFile::read_block issues) x {} keys (none, lengths 1..9, 16, 64, all-zero 1 and 8) x buffer capacities {{1,3,8,16,64}}; every returned byte and position is compared with a plain-slice reference; non-trivial = distinct (sequence, key, capacity) containing a read after a seek", depth, alpha.len(), keys.len());
+    rep.rule = format!("XorReader<seek_bufread::BufReader<Cursor>> built exactly as BlkFile::open builds it, over a 40-byte file: ALL operation sequences up to depth {} over an alphabet of {} operations (Seek(Start p), Read(n), ReadExact(n) - the operations BlkFile::read_block issues) x {} keys (none, lengths 1..9, 16, 64, all-zero 1 and 8, 8 bytes with one zero byte, with one non-zero byte, all 0xff) x buffer capacities {{1,3,8,16,64}}; every returned byte and position is compared with a plain-slice reference; non-trivial = distinct (sequence, key, capacity) containing a read after a seek", depth, alpha.len(), keys.len());
     rep.bound = json!({"depth": depth, "alphabet": alpha.len(), "keys": keys.len(), "capacities": caps});
     // work items: first op x key x cap
     let mut items = Vec::new();
@@ -580,6 +596,150 @@ fn replay(path: &str) -> i32 {
 }
 
 
+// ---- C07 / C08 / C13: transaction ids that agree in most of their bytes ---------------------------------
+//
+// Real transaction ids are hashes: two ids sharing 8 or more bytes cannot be produced by any feasible search, so no data
+// directory can contain them - but nothing in the statements allows an implementation to rely on that. Here the blocks are
+// parsed by the repository's own reader from model-serialised bytes, then the ids are REPLACED (Hashed::hash and the
+// outpoints that refer to them are public fields) by twins that agree in their first / last 8, 16 or 31 bytes, and the
+// blocks are handed to the real callbacks (on_start / on_block / on_complete).
+
+type Rows = std::collections::BTreeSet<String>;
+
+/// For each twin variant: (label, data rows of the dump file) as produced by the real callback.
+fn twin_rows(callback: &str) -> Vec<(String, Rows)> {
+    use crate::blockchain::parser::reader::BlockchainRead;
+    use crate::blockchain::parser::types::CoinType;
+    use bitcoin::hashes::{sha256d, Hash};
+    use refmodel::ser::{Block as MBlock, Tx, TxIn, TxOut};
+    use std::str::FromStr;
+    let ct = CoinType::from_str("bitcoin").unwrap();
+    let root = refmodel::world::scratch_root();
+    let mut out = Vec::new();
+    // agreement regions: (from, to) = bytes in which the two ids are EQUAL
+    let regions: [(usize, usize); 8] = [(0, 8), (24, 32), (0, 16), (16, 32), (0, 31), (1, 32), (8, 24), (0, 0)];
+    for (vi, (from, to)) in regions.iter().enumerate() {
+        let mut id1 = [0u8; 32];
+        for (i, b) in id1.iter_mut().enumerate() {
+            *b = (i as u8).wrapping_mul(29).wrapping_add(0x41 + vi as u8);
+        }
+        let mut id2 = id1;
+        for i in 0..32 {
+            if i < *from || i >= *to {
+                id2[i] = !id2[i];
+            }
+        }
+        let pay = |seed: u8, v: u64| TxOut { value: v, script: rs::p2pkh(&rs::h20(seed)) };
+        // block 1: coinbase, F1 (-> addresses 1, 2), F2 (-> addresses 3, 2); block 2: coinbase, S spends F1:0 and pays address 4
+        let f1 = Tx { version: 1, segwit: false, inputs: vec![TxIn::spend([0xe1; 32], 0)], outputs: vec![pay(1, 100), pay(2, 200)], locktime: 0, wide: 0 };
+        let f2 = Tx { version: 1, segwit: false, inputs: vec![TxIn::spend([0xe2; 32], 0)], outputs: vec![pay(3, 300), pay(2, 400)], locktime: 1, wide: 0 };
+        let sp = Tx { version: 1, segwit: false, inputs: vec![TxIn::spend(id1, 0)], outputs: vec![pay(4, 50)], locktime: 2, wide: 0 };
+        let cb1 = Tx { version: 1, segwit: false, inputs: vec![TxIn::coinbase(vec![1, 1])], outputs: vec![pay(9, 5000)], locktime: 0, wide: 0 };
+        let cb2 = Tx { version: 1, segwit: false, inputs: vec![TxIn::coinbase(vec![2, 2])], outputs: vec![pay(8, 5000)], locktime: 0, wide: 0 };
+        let b1 = MBlock::build(1, [7u8; 32], 1_600_000_000, 0x1d00ffff, 5, vec![cb1, f1, f2]);
+        let b2 = MBlock::build(1, b1.hash(), 1_600_000_600, 0x1d00ffff, 6, vec![cb2, sp]);
+        let parse = |b: &MBlock| {
+            let raw = b.ser();
+            let mut cur = std::io::Cursor::new(raw.clone());
+            cur.read_block(raw.len() as u32, &ct).expect("model block must parse")
+        };
+        let (mut p1, p2) = (parse(&b1), parse(&b2));
+        p1.txs[1].hash = sha256d::Hash::from_byte_array(id1);
+        p1.txs[2].hash = sha256d::Hash::from_byte_array(id2);
+        let dump = root.join(format!("twin-{}-{}", callback, vi));
+        let _ = std::fs::remove_dir_all(&dump);
+        std::fs::create_dir_all(&dump).unwrap();
+        let argv: Vec<String> = vec!["rusty-blockparser".into(), "-d".into(), dump.display().to_string(), callback.into(), dump.display().to_string()];
+        let mut options = crate::parse_args(crate::command().get_matches_from(argv)).expect("options");
+        let cbk = &mut options.callback;
+        cbk.on_start(1).expect("on_start");
+        cbk.on_block(&p1, 1).expect("on_block");
+        cbk.on_block(&p2, 2).expect("on_block");
+        cbk.on_complete(2).expect("on_complete");
+        let mut rows = Rows::new();
+        for (name, content) in refmodel::run::read_dir_files(&dump) {
+            if name.ends_with(".csv") {
+                rows.extend(String::from_utf8_lossy(&content).lines().skip(1).map(|l| l.to_string()));
+            }
+        }
+        out.push((format!("{} ids equal in bytes {}..{}", callback, from, to), rows));
+        let _ = std::fs::remove_dir_all(&dump);
+    }
+    let _ = std::fs::remove_dir_all(&root);
+    out
+}
+
+fn twins(prop: &str) -> Report {
+    let mut rep = Report::new(prop, "e2");
+    rep.rule = "a two-block history (coinbase, F1, F2 | coinbase, S spending F1:0) parsed by the repository's reader and handed to the real unspentcsvdump / balances callbacks after the ids of F1 and F2 were replaced by twins that are equal in their first 8, last 8, first 16, last 16, first 31, last 31, middle 16 or no bytes: F1:1, both outputs of F2, S:0 and the coinbases must be listed (C07), balances are their per-address sums (C08), and the rows are the same under 10 hash seeds (C13); non-trivial = distinct (callback, twin variant)".into();
+    rep.bound = json!({"twin_variants": 8, "callbacks": 2});
+    rep.assumptions = vec!["ids are replaced after parsing (public fields of the parsed block); the callbacks cannot tell".into()];
+    if prop == "C13" {
+        // the same worlds in child processes under different hash seeds (std's HashMap keys come from getrandom)
+        let exe = std::env::current_exe().unwrap();
+        let mut by_seed: Vec<(String, String)> = Vec::new();
+        for seed in ["1", "2", "6", "9", "17", "18", "19", "28", "47", "48"] {
+            let o = std::process::Command::new(&exe).arg("TWINROWS").env("VERIF_DETRAND", seed).output();
+            match o {
+                Ok(o) if o.status.success() => by_seed.push((seed.to_string(), String::from_utf8_lossy(&o.stdout).into_owned())),
+                Ok(o) => {
+                    rep.disagree("twin-ids:run-failed", format!("hash seed {}: exit {:?}: {}", seed, o.status.code(), String::from_utf8_lossy(&o.stderr).chars().take(300).collect::<String>()), json!({"kind": "twin-ids", "seed": seed}));
+                    return rep;
+                }
+                Err(e) => {
+                    rep.machinery(format!("spawn: {}", e));
+                    return rep;
+                }
+            }
+            rep.states += 16;
+            rep.transitions += 16;
+        }
+        for (seed, text) in &by_seed[1..] {
+            if text != &by_seed[0].1 {
+                let (a, b): (Vec<&str>, Vec<&str>) = (by_seed[0].1.lines().collect(), text.lines().collect());
+                let first = a.iter().zip(b.iter()).find(|(x, y)| x != y).map(|(x, y)| format!("{} vs {}", x, y)).unwrap_or_default();
+                rep.disagree("twin-ids:rows-depend-on-hash-seed", format!("hash seed {} vs {}: {}", seed, by_seed[0].0, first.chars().take(400).collect::<String>()), json!({"kind": "twin-ids", "seeds": [by_seed[0].0, seed]}));
+                break;
+            }
+        }
+        for l in by_seed[0].1.lines() {
+            rep.nontrivial.insert(h8(l.split('\t').next().unwrap_or("").as_bytes()));
+        }
+        return rep;
+    }
+    let callback = if prop == "C07" { "unspentcsvdump" } else { "balances" };
+    let got = match std::panic::catch_unwind(|| twin_rows(callback)) {
+        Ok(g) => g,
+        Err(_) => {
+            rep.disagree("twin-ids:callback-panicked", callback.to_string(), json!({"kind": "twin-ids"}));
+            return rep;
+        }
+    };
+    for (label, rows) in got {
+        rep.states += 1;
+        rep.transitions += 1;
+        rep.nontrivial.insert(h8(label.as_bytes()));
+        // expectation: which outputs are unspent does not depend on the ids' bytes
+        let n_expected = if prop == "C07" { 6 } else { 5 };
+        let ok = if prop == "C07" {
+            // rows: txid;indexOut;height;value;address - F1:1 (200), F2:0 (300), F2:1 (400), S:0 (50), two coinbases (5000)
+            let mut values: Vec<String> = rows.iter().map(|r| r.split(';').nth(3).unwrap_or("").to_string()).collect();
+            values.sort();
+            let ids: std::collections::BTreeSet<&str> = rows.iter().map(|r| r.split(';').next().unwrap_or("")).collect();
+            values == vec!["200", "300", "400", "50", "5000", "5000"] && ids.len() == 5
+        } else {
+            // address 1 spent; address 2: 200 + 400; address 3: 300; address 4: 50; coinbase addresses 9 and 8: 5000 each
+            let mut values: Vec<String> = rows.iter().map(|r| r.split(';').nth(1).unwrap_or("").to_string()).collect();
+            values.sort();
+            values == vec!["300", "50", "5000", "5000", "600"]
+        };
+        if !ok || rows.len() != n_expected {
+            rep.disagree(&format!("twin-ids:{}-rows-wrong", callback), format!("{}: rows {:?}", label, rows), json!({"kind": "twin-ids", "variant": label}));
+        }
+    }
+    rep
+}
+
 /// Body shared with the C13 schedule worlds: parse a block from memory (read_block -> Block::new -> EvaluatedTx::new,
 /// both parallel regions on the real rayon pool) and check every txid, address and type against the model.
 pub fn miri_body() {
@@ -600,6 +760,7 @@ pub fn miri_body() {
                     inputs: vec![if ti == 0 { TxIn::coinbase(vec![1, 2, 3]) } else { TxIn::spend([ti as u8; 32], 0) }],
                     outputs: (0..*n).map(|k| TxOut { value: 10 + k as u64, script: match (ti + k) % 3 { 0 => rs::p2pkh(&rs::h20((ti * 8 + k) as u8)), 1 => rs::op_return(b"miri"), _ => rs::p2sh(&rs::h20(k as u8)) } }).collect(),
                     locktime: 0,
+                    wide: 0,
                 })
                 .collect();
             let b = MBlock::build(1, [7u8; 32], 1_600_000_000, 0x1d00ffff, 5, txs);
